@@ -167,6 +167,22 @@ def build_seed(k):
             st = e_.load_rba * 2048
             if 0 < st < len(data) - 64:
                 ranges.append(('boot-info-table', st + 8, st + 64))
+        # the catalog entry by entry (validation, initial, section headers and entries)
+        cat_ = et.catalog_lba * 2048
+        for j_ in range(min(12, max(2, getattr(et, 'used_entries', 2) + 1))):
+            if 0 < cat_ and cat_ + 32 * j_ + 32 <= len(data):
+                ranges.append(('boot-entry', cat_ + 32 * j_, cat_ + 32 * j_ + 32))
+    # UDF descriptors: tag and the fixed-position numbers behind it as structures of their own
+    # (anchors, both volume descriptor sequences, integrity and file set descriptors, the first
+    # file entries and file identifier areas)
+    per_kind = {}
+    for kind_, s_, e_ in list(ranges):
+        if kind_ in ('udf-avdp', 'udf-mainvds', 'udf-reservevds', 'udf-lvid', 'udf-fsd', 'udf-fe', 'udf-fids'):
+            for sec_ in range(s_, min(e_, s_ + 6 * 2048), 2048):
+                if per_kind.get(kind_, 0) >= (3 if kind_ in ('udf-fe', 'udf-fids') else 6):
+                    break
+                per_kind[kind_] = per_kind.get(kind_, 0) + 1
+                ranges.append(('udf-head:' + kind_[4:], sec_, sec_ + 512))
     if dec['hybrid'].present:
         # the system area by sub-structure (fixed positions of the isohybrid layout), and the backup GPT
         ranges += [('mbr', 0, 512), ('mbr-partitions', 440, 512), ('gpt-header', 512, 604), ('gpt-entries', 1024, 1024 + 4 * 128),
@@ -388,7 +404,7 @@ def sweep_list(k):
         out = []
         seen = set()
         for kind, s_, e_ in ranges:
-            if (e_ - s_ > 128 and kind != 'vd-numbers') or (kind, s_) in seen:
+            if (e_ - s_ > 128 and kind != 'vd-numbers' and not kind.startswith('udf-head:')) or (kind, s_) in seen:
                 continue
             seen.add((kind, s_))
             if kind == 'vd-numbers':
@@ -396,6 +412,15 @@ def sweep_list(k):
                 for rel, w in ((0, 'both32'), (40, 'both16'), (44, 'both16'), (48, 'both16'), (52, 'both32')):
                     for v in (0, 1, 0xffff if w == 'both16' else 0xffffffff, 0x8000 if w == 'both16' else 0x80000000):
                         out.append((kind, s_ + rel, w, v))
+                continue
+            if kind.startswith('udf-head:'):
+                for off in range(s_, s_ + 16):
+                    out.append((kind, off, 1, 0xff))
+                for off in range(s_ + 16, s_ + 40):
+                    out.append((kind, off, 1, 0xff))
+                for a_, b_ in ((16, 216), (256, 272), (400, 408), (432, 440)):
+                    for off in range(s_ + a_, s_ + b_, 4):
+                        out.append((kind, off, 4, 0xffffffff))
                 continue
             if kind == 'dr-numbers':
                 nsec_ = len(data) // 2048
